@@ -63,8 +63,8 @@ impl Check for C10 {
 	}
 	fn runs(&self, tier: Tier) -> u64 {
 		match tier {
-			Tier::Quick => 40_000,
-			Tier::Thorough => 1_200_000,
+			Tier::Quick => 200_000,
+			Tier::Thorough => 4_000_000,
 		}
 	}
 	fn generate(&self, root: &Rng, i: u64, tier: Tier) -> Case {
